@@ -76,6 +76,17 @@ func main() {
 			}
 			return nil, nil
 		}
+		// a tree that locates its tools with exec.LookPath sees the same world
+		verifsim.LookPathHook = func(file string) (string, error) {
+			tool, _, _ := free.Classify(files, file, nil)
+			mu.Lock()
+			events = append(events, free.Event{Cmd: "LookPath " + file, Tool: tool, Kind: "probe"})
+			mu.Unlock()
+			if tool == "" || w.State[tool] == free.Missing || (tool == "goimports" && w.State[tool] == free.ProbeFails) {
+				return "", &exec.Error{Name: file, Err: exec.ErrNotFound}
+			}
+			return "/usr/bin/" + file, nil
+		}
 		cache := &generator.Formatters{}
 		results := make([]free.Result, len(reqs))
 		var wg sync.WaitGroup
